@@ -10,6 +10,7 @@ use crate::rel::{classify, Rel};
 use crate::util::{catch, trunc};
 use indextree::{Arena, NodeId};
 use std::collections::{BTreeMap, BTreeSet};
+use std::num::NonZeroUsize;
 
 #[derive(Clone, Debug)]
 pub struct Viol {
@@ -165,6 +166,10 @@ pub struct World<T: Payload> {
     pub log: Fnv,
     /// the model can no longer interpret the real state: the run must end
     pub diverged: bool,
+    /// blind continuation (C01 / C02 runs only): the model has lost track of the real links, the
+    /// run goes on with ids that are live in the *real* arena and only the model-free invariants
+    /// are evaluated
+    pub blind: bool,
     /// sample older ids of each slot for `is_removed` (C06 runs)
     pub deep_c06: bool,
     /// steps since the last refused / panicked call (reach probes)
@@ -299,6 +304,7 @@ impl<T: Payload> World<T> {
                 stats: Stats::default(),
                 log: Fnv::new(),
                 diverged: false,
+                blind: false,
                 deep_c06: false,
                 since_reject: None,
                 since_panic: None,
@@ -344,6 +350,9 @@ impl<T: Payload> World<T> {
             class: Class::Ok,
             rel: Rel::NA,
         };
+        if self.blind {
+            return self.step_blind(op);
+        }
         if !self.applicable(op) {
             out.skipped = true;
             self.stats.skipped += 1;
@@ -467,6 +476,159 @@ impl<T: Payload> World<T> {
                 .ops
                 .entry((op.name(), "-", if out.viols.is_empty() { "ok" } else { "viol" }))
                 .or_insert(0) += 1;
+        }
+        out
+    }
+
+    /// Blind continuation: execute the op on the real arena if all of its ids are live there
+    /// (a valid call whatever the model believes), judge nothing about its outcome, keep the
+    /// model going on a best-effort basis (it only serves to pick arguments), and evaluate the
+    /// model-free invariants of C01 / C02 on the surviving arena.
+    fn step_blind(&mut self, op: &Op) -> StepOut {
+        let mut out = StepOut {
+            skipped: true,
+            viols: Vec::new(),
+            class: Class::Ok,
+            rel: Rel::NA,
+        };
+        let real_live = |w: &World<T>, k: Key| -> Option<NodeId> {
+            let n = w.m.nodes.get(&k)?;
+            let id = n.id;
+            let slot = NonZeroUsize::new(slot_of(id))?;
+            if n.live && w.arena.get_node_id_at(slot) == Some(id) {
+                Some(id)
+            } else {
+                None
+            }
+        };
+        let fresh = |w: &World<T>, k: Key| !w.m.used_keys.contains(&k);
+        enum B {
+            New(Key, u32),
+            AppendValue(Key, NodeId, Key, u32),
+            Insert(Kind, bool, Key, NodeId, Key, NodeId),
+            Detach(Key, NodeId),
+            Remove(Key, NodeId),
+            RemoveSubtree(Key, NodeId),
+        }
+        let b = match op {
+            Op::New { k, val } if fresh(self, *k) => B::New(*k, *val),
+            Op::AppendValue { p, k, val, .. } if fresh(self, *k) => match real_live(self, *p) {
+                Some(pid) => B::AppendValue(*p, pid, *k, *val),
+                None => return out,
+            },
+            Op::Insert { kind, checked, a, b } => match (real_live(self, *a), real_live(self, *b)) {
+                (Some(ia), Some(ib)) => B::Insert(*kind, *checked, *a, ia, *b, ib),
+                _ => return out,
+            },
+            Op::Detach { x } => match real_live(self, *x) {
+                Some(i) => B::Detach(*x, i),
+                None => return out,
+            },
+            Op::Remove { x } => match real_live(self, *x) {
+                Some(i) => B::Remove(*x, i),
+                None => return out,
+            },
+            Op::RemoveSubtree { x } => match real_live(self, *x) {
+                Some(i) => B::RemoveSubtree(*x, i),
+                None => return out,
+            },
+            _ => return out,
+        };
+        out.skipped = false;
+        self.step_no += 1;
+        self.stats.steps += 1;
+        self.stats.probe("blind_step");
+        // the model transitions may meet states they cannot interpret: any panic there ends the run
+        let step_no = self.step_no;
+        let ok = catch(|| match b {
+            B::New(k, val) => {
+                let id = self.arena.new_node(T::make(val));
+                let slot = slot_of(id);
+                if slot <= self.m.slot_key.len() + 1 && !self.m.issued_set.contains(&id) {
+                    if slot <= self.m.slot_key.len() {
+                        if let Some(occ) = self.m.slot_key[slot - 1] {
+                            if self.m.is_live(occ) {
+                                // the model thought the slot was occupied: forget that node
+                                if !self.m.nodes[&occ].kids.is_empty() {
+                                    return false;
+                                }
+                                self.m.remove(occ);
+                            }
+                        }
+                        self.m.free.insert(slot);
+                    }
+                    self.m.adopt_alloc(k, id, val, None, step_no);
+                    true
+                } else {
+                    false
+                }
+            }
+            B::AppendValue(p, pid, k, val) => {
+                let r = catch(|| pid.append_value(T::make(val), &mut self.arena));
+                match r {
+                    Ok(id) => {
+                        let slot = slot_of(id);
+                        if slot > self.m.slot_key.len() + 1 || self.m.issued_set.contains(&id) {
+                            return false;
+                        }
+                        if slot <= self.m.slot_key.len() {
+                            if let Some(occ) = self.m.slot_key[slot - 1] {
+                                if self.m.is_live(occ) {
+                                    return false;
+                                }
+                            }
+                            self.m.free.insert(slot);
+                        }
+                        self.m.adopt_alloc(k, id, val, None, step_no);
+                        self.m.attach_child(p, k, false);
+                        true
+                    }
+                    Err(_) => true,
+                }
+            }
+            B::Insert(kind, checked, a, ia, b_, ib) => {
+                let (impossible, _) = self.predict_insert(a, b_);
+                let raw = raw_insert(&mut self.arena, kind, checked, ia, ib);
+                out.class = raw.class;
+                if raw.class == Class::Ok && !impossible {
+                    self.model_insert(kind, a, b_);
+                }
+                true
+            }
+            B::Detach(x, i) => {
+                if catch(|| i.detach(&mut self.arena)).is_ok() {
+                    self.m.detach(x);
+                }
+                true
+            }
+            B::Remove(x, i) => {
+                if catch(|| i.remove(&mut self.arena)).is_ok() {
+                    self.m.remove(x);
+                }
+                true
+            }
+            B::RemoveSubtree(x, i) => {
+                if catch(|| i.remove_subtree(&mut self.arena)).is_ok() {
+                    self.m.remove_subtree(x);
+                }
+                true
+            }
+        });
+        self.log.str(op.name());
+        match ok {
+            Ok(true) => {}
+            _ => {
+                // nothing more can be learnt from this run
+                self.blind = false;
+                self.diverged = true;
+                return out;
+            }
+        }
+        self.check_invariants(&mut out.viols);
+        if out.viols.iter().any(|v| v.prop == "C02") {
+            // a cycle: no further call is issued on this arena (library loops would not return)
+            self.blind = false;
+            self.diverged = true;
         }
         out
     }
